@@ -75,10 +75,11 @@ class Object(metaclass=ObjectMeta):
         """
         if value is self:
             return
+        # A property may itself be called "default": read the model's own.
         if isinstance(value, NotPassed) and not isinstance(
-            self.default, NotPassed
+            type(self).default, NotPassed
         ):
-            value = self.default
+            value = type(self).default
         self._dict: Dict[str, Any] = {}
         for attr_name, attr_value in type(self).__properties__(value).items():
             if attr_name in type(self).properties:
